@@ -287,6 +287,138 @@ class Gen:
         genes = [(gid, parts, sorted(perm[p] for p in prods if p < len(perm))) for gid, parts, prods in genes]
         return {"n": n, "circular": circular, "genes": genes, "protos": protos}
 
+    def layout(self, circular=None):
+        """ structured layouts: cores are placed independently of the extents.  Several hybrid groups (2-3
+            protoclusters around one shared gene), loose protoclusters whose core is put in a chosen relation
+            (overlapping the left / right end, inside, containing, touching, elsewhere) to an earlier core, and
+            neighbourhoods that are wide, reach the record ends, or are made to cover the whole extent of an
+            earlier protocluster (nested extents, equal extent starts / ends), so that the order of the
+            candidates by extent is unrelated to the order of their cores """
+        rng = self.rng
+        grid = rng.choice([1, 5, 10, 10])
+        units = rng.randint(24, 90)
+        n = units * grid
+        if circular is None:
+            circular = rng.random() < 0.25
+        n_groups = rng.choice([1, 2, 2, 2, 3])
+        n_loose = rng.choice([0, 1, 1, 1, 2, 2, 3])
+        sizes = [rng.choice([2, 2, 2, 3]) for _ in range(n_groups)]
+        while sum(sizes) + n_loose > MAX_PROTOS:
+            if n_loose > 1:
+                n_loose -= 1
+            elif len(sizes) > 1 and sizes[-1] == 2:
+                sizes.pop()
+            else:
+                sizes[-1] -= 1
+        n_genes = len(sizes) + rng.choice([0, 0, 1, 2])
+        cuts = sorted(rng.sample(range(1, units), min(units - 1, 2 * n_genes)))
+        slots = []
+        for i in range(0, len(cuts) - 1, 2):
+            slots.append((cuts[i], min(cuts[i + 1], cuts[i] + rng.choice([1, 1, 2, 3]))))
+        rng.shuffle(slots)
+        genes = []
+        protos = []   # (pid, extent, core, product) in units
+        pads = [0, 0, 0, 1, 1, 2, 4]
+
+        def clip(s, e):
+            return max(0, s), min(units, e)
+
+        def extent_for(core):
+            s, e = core
+            r = rng.random()
+            if protos and r < 0.40:
+                # cover the whole extent of one or two earlier protoclusters (nesting by extent)
+                for _ in range(rng.choice([1, 1, 2])):
+                    other = rng.choice(protos)[1]
+                    s, e = min(s, other[0]), max(e, other[1])
+                s -= rng.choice([0, 0, 0, 1, 3])
+                e += rng.choice([0, 0, 0, 1, 3])
+            elif protos and r < 0.50:
+                # same extent start or end as an earlier one
+                other = rng.choice(protos)[1]
+                if rng.random() < 0.5:
+                    s, e = min(s, other[0]), e + rng.choice([0, 1, 2, 5, 10, 20])
+                else:
+                    s, e = s - rng.choice([0, 1, 2, 5, 10, 20]), max(e, other[1])
+            else:
+                wide = [0, 0, 1, 2, 3, 5, 8, 12, 20, 40, units]
+                s -= rng.choice(wide)
+                e += rng.choice(wide)
+            return clip(s, e)
+
+        for gi, size in enumerate(sizes):
+            if gi >= len(slots):
+                break
+            gs, ge = slots[gi]
+            gid = len(genes)
+            genes.append([gid, [(gs * grid, ge * grid, rng.choice([1, 1, -1]))], []])
+            for _ in range(size):
+                pid = len(protos)
+                core = clip(gs - rng.choice(pads), ge + rng.choice(pads))
+                protos.append((pid, extent_for(core), core, pid))
+                genes[gid][2].append(pid)
+        for gs, ge in slots[len(sizes):]:
+            # genes without any CORE function of their own protocluster (decorated below)
+            genes.append([len(genes), [(gs * grid, ge * grid, rng.choice([1, 1, -1]))], []])
+        for _ in range(n_loose):
+            pid = len(protos)
+            core = None
+            if protos:
+                os_, oe = rng.choice(protos)[2]
+                rel = rng.choice(["left", "right", "inside", "contain", "touch_l", "touch_r", "same", "free"])
+                a, b = rng.choice([1, 1, 2, 3, 6]), rng.choice([1, 1, 2, 3])
+                if rel == "left":
+                    core = (os_ - a, os_ + b)
+                elif rel == "right":
+                    core = (oe - b, oe + a)
+                elif rel == "inside" and oe - os_ >= 2:
+                    s = rng.randint(os_, oe - 1)
+                    core = (s, rng.randint(s + 1, oe))
+                elif rel == "contain":
+                    core = (os_ - rng.choice(pads), oe + rng.choice(pads))
+                elif rel == "touch_l":
+                    core = (os_ - a, os_)
+                elif rel == "touch_r":
+                    core = (oe, oe + a)
+                elif rel == "same":
+                    core = (os_, oe)
+            if core is None:
+                s = rng.randrange(0, units - 1)
+                core = (s, s + rng.randint(1, max(1, units // 6)))
+            core = clip(*core)
+            if core[1] <= core[0]:
+                core = (min(core[0], units - 1), min(core[0], units - 1) + 1)
+            protos.append((pid, extent_for(core), core, pid))
+        # foreign products on genes: not defining unless the gene lies in that protocluster's core as well,
+        # in which case it links the protocluster into a hybrid (both are wanted)
+        for g in genes:
+            if rng.random() < 0.2 and protos:
+                prod = rng.randrange(len(protos))
+                if prod not in g[2]:
+                    g[2].append(prod)
+        if circular:
+            # no location may cover the whole circular record (see the note on cyclic __lt__)
+            fixed = []
+            for pid, ext, core, prod in protos:
+                if ext == (0, units):
+                    if core[1] < units:
+                        ext = (0, units - 1)
+                    elif core[0] > 0:
+                        ext = (1, units)
+                    else:
+                        core = ext = (0, units - 1)
+                fixed.append((pid, ext, core, prod))
+            protos = fixed
+        order = list(range(len(protos)))
+        rng.shuffle(order)          # ids (= set iteration order) unrelated to the position
+        renum = {old: new for new, old in enumerate(order)}
+        perm = list(range(len(protos)))
+        rng.shuffle(perm)
+        out = sorted((renum[pid], [(ext[0] * grid, ext[1] * grid, 1)], [(core[0] * grid, core[1] * grid, 1)], perm[prod])
+                     for pid, ext, core, prod in protos)
+        genes = [(gid, parts, sorted(perm[p] for p in prods)) for gid, parts, prods in genes]
+        return {"n": n, "circular": circular, "genes": genes, "protos": out}
+
     def sub_interval(self, extent, grid):
         rng = self.rng
         s, e, st = extent[0]
@@ -321,7 +453,13 @@ RULE = ("structured configurations: record length 12..400 on a grid of 1, 5 or 1
         "and identical coordinates are frequent), 1-6 disjoint genes carrying CORE functions, 1-8 protoclusters built "
         "around anchor genes (shared defining genes -> hybrids), nested / identical / chained cores and extents, "
         "non-defining genes with foreign products, occasional reverse/unknown strands; linear and circular records, "
-        "circular ones also with origin-crossing cores and neighbourhoods; every configuration is run through "
+        "circular ones also with origin-crossing cores and neighbourhoods; "
+        "every third configuration is a structured LAYOUT instead (record 24..900, 1-3 hybrid groups of 2-3 protoclusters around "
+        "a shared gene, 0-3 loose protoclusters whose core is placed in a chosen relation - overlapping either end, inside, "
+        "containing, touching, identical, elsewhere - to an earlier core; cores are placed independently of the extents, and "
+        "extents are wide (up to the whole record), cover the whole extent of earlier protoclusters (nesting by extent) or share "
+        "their start/end, so the order of candidates by extent is unrelated to the order of their cores; ids shuffled); "
+        "every configuration is run through "
         "Record.create_candidate_clusters (protoclusters added in a random order; every order for <= 3 protoclusters "
         "in part of the cases) and through create_candidates_from_protoclusters on a permuted list; _merge_sets on "
         "random chains of pairs.  Real Protocluster objects whose hash is their id (set iteration = ascending id). "
@@ -432,6 +570,9 @@ def run(chk):
         wrapping = r < 0.25
         if i < len(CORPUS):
             config = CORPUS[i]
+        elif i % 3 == 2:
+            config = gen.layout()
+            chk.count("layout_configurations")
         else:
             config = gen.config(circular=True if wrapping else None, wrapping=wrapping)
         nprot = len(config["protos"])
@@ -474,11 +615,23 @@ def run(chk):
     raised = 0
     clause_names = ["every protocluster covered", "members are protoclusters of the record", "no repeated member",
                     "group sizes fit the kind", "location = connect_locations(members)", "unique coordinates+membership"]
+    # class test of the recorded finding `joint_core_wraps_assert`, computed by the model (fn 11 / 12) for the
+    # cases on which the implementation raised
+    raised_idx = [idx for (idx, _c), verdict in zip(specs, verdicts) if verdict == [2]]
+    class_flags = dict(zip(raised_idx, common.run_driver([[PROP, cases[i][1] + 10] + cases[i][2:] for i in raised_idx])))
     for (idx, _spec_case), verdict in zip(specs, verdicts):
         if verdict and verdict[0] == 1 and len(verdict) == 7:
             continue
         if verdict == [2]:
             raised += 1
+            # recorded finding: AssertionError (`assert core_group`) when two hybrid groups with the same coordinates
+            # were united and the joint core is connected the short way across the origin.  Suppressed only if the
+            # class is recorded, the input is in the class, and implementation == model (both AssertionError).
+            if "joint_core_wraps_assert" in known and class_flags.get(idx) == [1] \
+                    and impl_outs[idx] == [1, common.ERR["AssertionError"]] and model_outs[idx] == impl_outs[idx]:
+                chk.known(known["joint_core_wraps_assert"]["what_fails"])
+                chk.count("known_joint_core_wraps_assert")
+                continue
             chk.violation("counterexample", "candidate cluster formation raises on a valid set of protoclusters",
                           {"theorem_or_correspondence": "C05 spec_ok (formation must cover every protocluster)",
                            "flat": cases[idx], "implementation": impl_outs[idx], "model": model_outs[idx],
